@@ -533,7 +533,7 @@ theorem input_loop_runs (s : Setup) (hwf : s.WF) (u0 u1 : Nat) (h01 : u0 < u1) (
     (hne : s.input ≠ []) (hpass : AllPassA s.input um al) (hu : u.isEmpty = false) (h1c : u1 < c)
     (hF : Facts (σ.update u) 0 (s.input.map (·.name)) um al) :
     ∃ σ' c', RunsTo s (base ++ s.rails) (headState σ u c u0 u1) (railObs "input" 0 s.input um al) (exitState σ' c' u0 u1) ∧
-      Facts σ' s.input.length (s.input.map (·.name)) (finalVals s.input um al).1 (finalVals s.input um al).2 ∧ Keep K10 (σ.update u) σ' := by
+      Facts σ' s.input.length (s.input.map (·.name)) (finalVals s.input um al).1 (finalVals s.input um al).2 ∧ Keep K10 (σ.update u) σ' ∧ u1 < c' := by
   -- split off the last rail
   obtain ⟨pre, last, hsplit⟩ : ∃ pre last, s.input = pre ++ [last] := ⟨s.input.dropLast, s.input.getLast hne, (List.dropLast_concat_getLast hne).symm⟩
   have allsplit : ∀ (l : List IRail) (um al : V), AllPassA (l ++ [last]) um al → AllPassA l um al ∧ passes last (finalVals l um al).1 := by
@@ -558,7 +558,7 @@ theorem input_loop_runs (s : Setup) (hwf : s.WF) (u0 u1 : Nat) (h01 : u0 < u1) (
   have hk : s.input[0 + pre.length]? = some last := by rw [hsplit]; simp
   have hlen : 0 + pre.length + 1 = s.input.length := by rw [hsplit]; simp
   obtain ⟨σ', R2, hF2, hK2⟩ := iter_exit_runs s hwf u0 u1 h01 σ1 u1' c1 hu1 hc1 (0 + pre.length) _ _ last hk hlen hF1 hp2
-  refine ⟨σ', c1 + 1, ?_, ?_, hK1.trans hK2⟩
+  refine ⟨σ', c1 + 1, ?_, ?_, hK1.trans hK2, by omega⟩
   · have := R1.trans R2
     rw [hsplit, obssplit]; exact this
   · rw [← hlen]
